@@ -79,8 +79,13 @@ func main() {
 		fmt.Fprintln(os.Stderr, "compile failed:", err)
 		ci, cd = nil, nil
 	}
-	if ci != nil && (ci.GetNbPublicVariables() != 2 || cd.GetNbPublicVariables() != 2) {
-		fmt.Fprintf(gen.Out, "public-inputs\t%d\t%d\t=>\tnot-one-public-input\n", ci.GetNbPublicVariables(), cd.GetNbPublicVariables())
+	if ci != nil {
+		// ONE wire + InputHash
+		res := "one"
+		if ci.GetNbPublicVariables() != 2 || cd.GetNbPublicVariables() != 2 {
+			res = fmt.Sprintf("insertion %d, deletion %d public wires (expected 2 = ONE + InputHash)", ci.GetNbPublicVariables(), cd.GetNbPublicVariables())
+		}
+		fmt.Fprintf(gen.Out, "public-inputs\t%d\t%d\t=>\t%s\n", *d, *b, res)
 	}
 	emit := func(line, res string) { fmt.Fprintf(gen.Out, "%s\t=>\t%s\n", line, res) }
 	for c := 0; c < *n; c++ {
